@@ -88,10 +88,34 @@ fn direct_load(text: &str) -> Docs {
     }
 }
 
+/// A source that hands out its bytes in short reads (1, 2, 3, 5, 64 bytes, ...), as pipes, sockets and chained
+/// readers do: `Read::read` may return fewer bytes than asked for at any time, only 0 means the end.
+struct Dribble<'a> {
+    data: &'a [u8],
+    calls: usize,
+}
+impl std::io::Read for Dribble<'_> {
+    fn read(&mut self, buf: &mut [u8]) -> std::io::Result<usize> {
+        let step = [1usize, 2, 3, 5, 64, 1, 4096, 7][self.calls % 8];
+        self.calls += 1;
+        let n = step.min(buf.len()).min(self.data.len());
+        buf[..n].copy_from_slice(&self.data[..n]);
+        self.data = &self.data[n..];
+        Ok(n)
+    }
+}
+
 fn decode_once(bytes: &[u8], trap: &str) -> Result<Result<Vec<Value>, &'static str>, String> {
+    decode_from(bytes, trap)
+}
+fn decode_dribbled(bytes: &[u8], trap: &str) -> Result<Result<Vec<Value>, &'static str>, String> {
+    decode_from(Dribble { data: bytes, calls: 0 }, trap)
+}
+
+fn decode_from<R: std::io::Read>(src: R, trap: &str) -> Result<Result<Vec<Value>, &'static str>, String> {
     let t = trap_of(trap);
     std::panic::catch_unwind(std::panic::AssertUnwindSafe(|| {
-        match YamlDecoder::read(bytes).encoding_trap(t).decode() {
+        match YamlDecoder::read(src).encoding_trap(t).decode() {
             Ok(d) => Ok(d.iter().map(|x| x.proj(false)).collect::<Vec<_>>()),
             // `LoadError` is not exported by saphyr; its variants are told apart through
             // `Error::source()` (IO -> io::Error, Scan -> ScanError, Decode -> None)
@@ -199,7 +223,8 @@ pub fn child(_a: &Args) {
                 // second pass (the call is deterministic) with the `dec` hook recording the loop heads
                 CB_CALLS.with(|c| c.set(0));
                 saphyr_parser::verif::start();
-                let second = decode_once(&bytes, trap);
+                // (the same bytes, this time from a source that delivers them in short reads)
+                let second = decode_dribbled(&bytes, trap);
                 let log = saphyr_parser::verif::take();
                 let cb = CB_CALLS.with(|c| c.get());
                 let its: Vec<Value> = log
@@ -210,7 +235,12 @@ pub fn child(_a: &Args) {
                     .collect();
                 match second {
                     Err(p) => json!({"res": "panic", "same": false, "cb": cb, "its": its, "panic": p}),
-                    Ok(r) => {
+                    Ok(r2) => {
+                        // the result must not depend on how the source delivers its bytes: a failure of either pass is
+                        // the result, and the documents are "the same" only if both passes gave them
+                        let r1 = first.unwrap();
+                        let both_equal = r1 == r2;
+                        let r = if r1.is_err() { r1 } else { r2 };
                         let mut same = false;
                         let mut direct = "none";
                         if ht != "-" {
@@ -224,10 +254,11 @@ pub fn child(_a: &Args) {
                                 Ok(_) => "ok",
                                 Err(e) => e,
                             };
-                            same = match (&r, d) {
-                                (Ok(x), Ok(y)) => x == y,
-                                _ => false,
-                            };
+                            same = both_equal
+                                && match (&r, d) {
+                                    (Ok(x), Ok(y)) => x == y,
+                                    _ => false,
+                                };
                         }
                         let (res, ndocs) = match &r {
                             Ok(d) => ("ok", d.len()),
